@@ -121,6 +121,15 @@ theorem C14_no_false_deadlock {c : Config} {s : State} (hc : c.old = false) (ht 
   have inv := ginv_reachable hc h
   exact ⟨inv.nfd ht k hseq, fun j hj => ⟨inv.seqC k hseq j hj, inv.obs j (inv.seqC k hseq j hj)⟩⟩
 
+/-- **The gate keeps the receiver thread reading.**  In the code `spawn` of a main_thread_only pool *waits* for the task
+that occupies the primary thread (`_try_send_to_primary_thread`: `self._primary_thread_task.waitfinish()`); called by the
+receiver thread that would stop all message handling — the worker would not even notice the end of its connection (C11).
+Whenever the receiver has passed the gate and is about to spawn, the main thread is idle and nothing is queued, so that wait
+is never entered. -/
+theorem C14_spawn_never_blocks_receiver {c : Config} {s : State} (hc : c.old = false) (h : Reachable c s) (k : Nat)
+    (hr : s.r = .cleared k) : s.m = .idle ∧ s.queue = [] :=
+  ((ginv_reachable hc h).rClearedI k hr).2
+
 /-- the ghost flag `seqOk` is what it claims to be: set at submission iff every earlier channel had been
 observed closed, and the initiator can observe a channel closed only after the worker closed it -/
 theorem C14_seq_flag {c : Config} {s s' : State} :
